@@ -13,5 +13,6 @@ func init() {
 		Sanitize(c, "R-SANITIZE", p)
 		InstPath(c, "R-INSTPATH", p, "Clone")
 		CloneFresh(c, "R-FRESH", p, 10)
+		CloneIdentity(c, "R-CLONEID", []*packages.Package{p, c.Pkg("fp")})
 	})
 }
